@@ -350,3 +350,66 @@ def run(prog: Program, res: Result) -> None:  # noqa: PLR0912, PLR0915
                     res.fail("C07.R7", file=mod.relpath, line=a.lineno, qualname=q, construct=norm(a), message=f"`{norm(a)}` walks from a render context to the context it was copied from: state of the caller becomes reachable from an isolated scope", what=f"`{norm(a)}`: RenderContext.parent is not read")
     res.floor("C07.R7", "locals/counters accesses", n_state, 3)
     res.ok("C07.R7", "liquid2", "RenderContext.parent is never read", f"{n_parent} reads")
+
+    # ------------------------------------------------------------------ R8 one isolated context per rendered instance
+    res.rule("C07.R8", "`render … for`: inside the item loop the isolated context is re-created (context.copy) before each render_with_context call, so nothing a partial assigns or counts for one item is seen by the next")
+    rn = prog.cls("liquid2.builtin.tags.render_tag.RenderNode")
+    n_loop_renders = 0
+    for nm in ("render_to_output", "render_to_output_async"):
+        m = rn.methods.get(nm)
+        if m is None:
+            raise AnalysisError(f"RenderNode.{nm} vanished")
+        for loop in [x for x in ast.walk(m.node) if isinstance(x, (ast.For, ast.AsyncFor, ast.While))]:
+            calls = [c for c in ast.walk(loop) if isinstance(c, ast.Call) and isinstance(c.func, ast.Attribute) and c.func.attr in ("render_with_context", "render_with_context_async")]
+            for c in calls:
+                n_loop_renders += 1
+                ctx_arg = c.args[0] if c.args else None
+                what = f"RenderNode.{nm}: `{norm(c, 60)}` in the item loop renders with a context created in that iteration"
+                fresh = False
+                if isinstance(ctx_arg, ast.Name):
+                    # last statement-level assignment to the name that precedes the call inside the loop body
+                    for st in loop.body:
+                        if st.lineno > c.lineno:
+                            break
+                        if isinstance(st, ast.Assign) and any(isinstance(t, ast.Name) and t.id == ctx_arg.id for t in st.targets):
+                            v = st.value
+                            fresh = isinstance(v, ast.Call) and isinstance(v.func, ast.Attribute) and v.func.attr == "copy" and root_name(v.func.value) == "context"
+                elif isinstance(ctx_arg, ast.Call) and isinstance(ctx_arg.func, ast.Attribute) and ctx_arg.func.attr == "copy":
+                    fresh = True
+                if fresh:
+                    res.ok("C07.R8", f"{m.file}:{c.lineno} RenderNode.{nm}", what, "context.copy(...) at the top level of the loop body")
+                else:
+                    res.fail("C07.R8", file=m.file, line=c.lineno, qualname=f"RenderNode.{nm}", construct=f"{nm}: item loop reuses `{norm(ctx_arg) if ctx_arg is not None else '?'}`", message=f"the item loop of `render … for` renders every item with the same copied context `{norm(ctx_arg) if ctx_arg is not None else '?'}`: locals, counters and macros the partial creates for one item are visible to the next", what=what)
+    res.floor("C07.R8", "render_with_context calls inside item loops", n_loop_renders, 2)
+
+    # ------------------------------------------------------------------ R9 loop interrupts stop at the isolation boundary
+    res.rule("C07.R9", "break/continue raised inside a macro body or a rendered partial never reach a loop of the caller: no LiquidInterrupt escapes CallNode.render_to_output[_async] (exception-escape analysis), and the render tag renders with partial=True, block_scope=True (converted by render_with_context)")
+    from sa.escape import Escapes
+
+    E = Escapes(prog)
+    cn = prog.cls("liquid2.builtin.tags.macro_tag.CallNode")
+    roots = [cn.methods[n] for n in ("render_to_output", "render_to_output_async") if n in cn.methods]
+    res.floor("C07.R9", "CallNode render methods", len(roots), 2)
+    E.compute(roots)
+    li = E.pyclass(prog.cls("liquid2.exceptions.LiquidInterrupt"))
+    for r in roots:
+        esc = [e for e in E.escapes_of(r) if issubclass(e.exc, li)]
+        what = f"CallNode.{r.name}: no loop interrupt escapes a macro call"
+        if not esc:
+            res.ok("C07.R9", f"{r.file}:{r.node.lineno} CallNode.{r.name}", what, "every LiquidInterrupt raised below is caught in the call node")
+        for e in esc[:2]:
+            res.fail("C07.R9", file=r.file, line=r.node.lineno, qualname=f"CallNode.{r.name}", construct=f"{e.exc.__name__} from {e.qualname} escapes CallNode.{r.name}", message=f"{e.exc.__name__} raised by {e.qualname} inside a macro body propagates out of the call: a for loop around the `call` tag is ended or skipped by a break/continue that is not in its body", path=[r.qualname] + list(e.chain)[:8] + [e.qualname], what=what)
+    n_rwc = 0
+    for nm in ("render_to_output", "render_to_output_async"):
+        m = rn.methods[nm]
+        for c in ast.walk(m.node):
+            if isinstance(c, ast.Call) and isinstance(c.func, ast.Attribute) and c.func.attr in ("render_with_context", "render_with_context_async"):
+                n_rwc += 1
+                kw = {k.arg: k.value for k in c.keywords}
+                ok = all(isinstance(kw.get(k), ast.Constant) and kw[k].value is True for k in ("partial", "block_scope"))
+                what = f"RenderNode.{nm}: `{norm(c, 70)}` passes partial=True, block_scope=True"
+                if ok:
+                    res.ok("C07.R9", f"{m.file}:{c.lineno} RenderNode.{nm}", what, "interrupts are converted to LiquidSyntaxError inside the partial")
+                else:
+                    res.fail("C07.R9", file=m.file, line=c.lineno, qualname=f"RenderNode.{nm}", construct=f"{nm}: {norm(c, 70)}", message="the render tag renders its partial without partial=True, block_scope=True: a break/continue in the partial is re-raised into the caller's loop (or block-scoped names leak)", what=what)
+    res.floor("C07.R9", "render_with_context calls in RenderNode", n_rwc, 6)
